@@ -216,23 +216,67 @@ Proof.
     rewrite (in_window_warm_sub t r x Hdt Hr W). reflexivity. }
   rewrite E. apply table_ok_filter. exact H.
 Qed.
-Lemma warm_started t r tab : filter_time (in_window t) tab <> [] ->
-  exists D g st, rel_init (warm_tk t r) None true tab = RelOk D g st.
+(** a warm start (either release mode) is refused exactly when no row lies before the stop time; a cold
+    start that is not refused has rows before the stop time *)
+Lemma refusal_warm_any t c tab : rel_init t c true tab = RelExit <-> filter_time (before_stop t) tab = [].
 Proof.
-  intro H. destruct (rel_init (warm_tk t r) None true tab) as [|D g st] eqn:E; [|exists D, g, st; reflexivity].
-  exfalso. apply refusal_warm in E. apply H.
-  rewrite <- (filter_time_ext _ _ tab (window_bools t)), <- filter_time_filter_time.
-  assert (filter_time (before_stop t) tab = []) as E0 by exact E. rewrite E0. reflexivity.
+  unfold rel_init. destruct (filter_time (before_stop t) tab) as [|r0 d1] eqn:E1; [tauto|].
+  destruct (filter_time (after_start t) _); split; intro; discriminate.
+Qed.
+Lemma started_before_stop t c tab : rel_init t c false tab <> RelExit -> filter_time (before_stop t) tab <> [].
+Proof. intros H E. apply H. unfold rel_init. rewrite E. reflexivity. Qed.
+Lemma warm_started t r c tab : filter_time (before_stop t) tab <> [] ->
+  exists D g st, rel_init (warm_tk t r) c true tab = RelOk D g st.
+Proof.
+  intro H. destruct (rel_init (warm_tk t r) c true tab) as [|D g st] eqn:E; [|exists D, g, st; reflexivity].
+  exfalso. apply refusal_warm_any in E. apply H. exact E.
+Qed.
+
+(** continuous release under the restarted clock *)
+Lemma step2time_warm t r n : step2time (warm_tk t r) n = step2time t (n + r).
+Proof. unfold warm_tk, step2time. cbn [start dt rev]. destruct (rev t); lia. Qed.
+Lemma cont_ok_warm t r f tab : 0 < dt t -> cont_ok (warm_tk t r) f tab = cont_ok t f tab.
+Proof.
+  intro Hdt. unfold cont_ok. change (before_stop (warm_tk t r)) with (before_stop t).
+  rewrite sim_sorted_warm. change (dt (warm_tk t r)) with (dt t). f_equal.
+  destruct (filter_time (before_stop t) tab) as [|r0 W]; [reflexivity|]. unfold Release.on_grid.
+  apply grid_warm. exact Hdt.
+Qed.
+(** at step n >= 1 of the restarted clock the warm releaser is to append what the cold releaser of the
+    original clock is to append at step n + r: the time of the step is the same, ticks and latest file times
+    do not depend on the start, and the time lies strictly after the new start and at or after the old one *)
+Lemma cont_released_warm t r f tab n : 0 < dt t -> 0 <= r -> 1 <= n ->
+  cont_released_at (warm_tk t r) f true tab n = cont_released_at t f false tab (n + r).
+Proof.
+  intros Hdt Hr Hn. unfold cont_released_at. change (before_stop (warm_tk t r)) with (before_stop t).
+  destruct (filter_time (before_stop t) tab) as [|r0 W]; [reflexivity|].
+  rewrite step2time_warm. set (x := step2time t (n + r)).
+  change (is_tick (warm_tk t r) f (rt r0) x) with (is_tick t f (rt r0) x).
+  change (latest (warm_tk t r) (r0 :: W) x) with (latest t (r0 :: W) x).
+  assert (the_start (warm_tk t r) true x = true) as ->.
+  { unfold the_start, after_start, warm_tk, x, step2time. cbn [start rev]. destruct (rev t).
+    - apply Z.ltb_lt. nia.
+    - apply Z.ltb_lt. nia. }
+  assert (the_start t false x = true) as ->.
+  { unfold the_start, from_start, x, step2time. destruct (rev t).
+    - apply Z.leb_le. nia.
+    - apply Z.leb_le. nia. }
+  reflexivity.
 Qed.
 
 Lemma mw_rows_spec w n D g st : 0 < dt (s_tk w) ->
-  table_ok (s_tk w) (filter_time (in_window_warm (s_tk w)) (s_tab w)) = true ->
-  rel_init (s_tk w) None true (s_tab w) = RelOk D g st -> 0 <= n ->
-  mw_rows w n = released_at_warm (s_tk w) (s_tab w) n.
+  match s_cont w with
+  | None => table_ok (s_tk w) (filter_time (in_window_warm (s_tk w)) (s_tab w))
+  | Some f => cont_ok (s_tk w) f (s_tab w)
+  end = true ->
+  rel_init (s_tk w) (s_cont w) true (s_tab w) = RelOk D g st -> 0 <= n ->
+  mw_rows w n = spw_rows w n.
 Proof.
-  intros Hdt Ht E Hn. unfold mw_rows. rewrite E.
-  rewrite (release_schedule (s_tk w) true (s_tab w) D g st Hdt Ht E (S (Z.to_nat n))).
-  rewrite last_map_seq. rewrite Z2Nat.id by exact Hn. reflexivity.
+  intros Hdt Ht E Hn. unfold mw_rows, spw_rows. rewrite E. destruct (s_cont w) as [f|].
+  - rewrite (continuous_schedule (s_tk w) f true (s_tab w) D g st Hdt Ht E (S (Z.to_nat n))).
+    rewrite last_map_seq. rewrite Z2Nat.id by exact Hn. reflexivity.
+  - rewrite (release_schedule (s_tk w) true (s_tab w) D g st Hdt Ht E (S (Z.to_nat n))).
+    rewrite last_map_seq. rewrite Z2Nat.id by exact Hn. reflexivity.
 Qed.
 
 (** forcing machines against the specification, from the three forcing facts alone *)
@@ -318,14 +362,20 @@ Section Restart.
   Lemma release_w n : 1 <= n -> mw_release w n = m_release s (n + r).
   Proof.
     intro Hn. unfold mw_release, m_release. f_equal.
-    assert (filter_time (in_window t) (s_tab s) <> []) as NE.
-    { intro E. apply refusal_cold in E. pose proof (of_started s F) as St. unfold started in St.
+    assert (filter_time (before_stop t) (s_tab s) <> []) as NE.
+    { apply (started_before_stop t (s_cont s)). intro E. pose proof (of_started s F) as St. unfold started in St.
       fold t in St. rewrite E in St. discriminate. }
-    destruct (warm_started t r (s_tab s) NE) as (D & g & st & EI).
+    destruct (warm_started t r (s_cont s) (s_tab s) NE) as (D & g & st & EI).
+    pose proof (of_tab s F) as Tb. unfold tab_ok in Tb. fold t in Tb.
     rewrite (mw_rows_spec w n D g st); try assumption; try lia.
-    - unfold w. cbn [warm_setup s_tk s_tab]. fold t. rewrite (released_warm t r (s_tab s) n Hdt Hr' Hn).
-      symmetry. apply m_rows_spec; [exact F|lia].
-    - unfold w. cbn [warm_setup s_tk s_tab]. fold t. apply table_ok_warm; [exact Hdt|lia|exact (of_tab s F)].
+    - rewrite (m_rows_spec s (n + r) F) by lia.
+      unfold spw_rows, sp_rows, w. cbn [warm_setup s_tk s_tab s_cont]. fold t.
+      destruct (s_cont s) as [f|].
+      + apply cont_released_warm; [exact Hdt|lia|exact Hn].
+      + apply released_warm; assumption.
+    - unfold w. cbn [warm_setup s_tk s_tab s_cont]. fold t. destruct (s_cont s) as [f|].
+      + rewrite cont_ok_warm by exact Hdt. exact Tb.
+      + apply table_ok_warm; [exact Hdt|lia|exact Tb].
   Qed.
   Lemma due_w n : s_due w n = s_due s (n + r).
   Proof.
